@@ -40,6 +40,10 @@ def ibcFlow (cfg : Cfg) : IbcOp → Except Err (List Prim)
        | none => .error .disabled)
     else .ok (ibcCoinToBaseCoin g (U u) n)
   | .toIbc g u n =>
+    -- FX is its own alias on every route (`ManyToOne` ignores the target): the base coin is burned in the transfer module
+    -- account and must then be paid back out of that account's own balance, which is empty (blocked module account;
+    -- `transfer_module_keeps_no_base_coin`) — a no-op for amount 0, refused otherwise
+    if cfg.kind g = some .fx then (if n = 0 then .ok [] else .error .insufficient) else
     if !cfg.ibcAlias g then .error .notFound else
     .ok (baseCoinToIBCCoin g (U u) n)
   | .xfer g u n =>
